@@ -25,7 +25,7 @@ func init() {
 		Mutant{"C37", "file-lossy-timestamp", "internal/logger/destination_file.go",
 			"t.Format(time.RFC3339Nano)", "t.Format(time.ANSIC)", "C37.timestamp"},
 		Mutant{"C37", "stdout-message-not-formatted", "internal/logger/destination_stdout.go",
-			"strconv.Quote(fmt.Sprintf(format, args...))", "strconv.Quote(format)", "C37.message.formatted"},
+			"msg, _ := json.Marshal(fmt.Sprintf(format, args...))\n		d.buf.Write(msg)\n		d.buf.WriteString(`}`)\n		d.buf.WriteByte('\\n')\n	} else {", "msg, _ := json.Marshal(format)\n		d.buf.Write(msg)\n		d.buf.WriteString(`}`)\n		d.buf.WriteByte('\\n')\n	} else {", "C37.message.formatted"},
 		Mutant{"C37", "file-buffer-not-reset", "internal/logger/destination_file.go",
 			"	d.buf.Reset()\n", "", "C37.frame"},
 		Mutant{"C37", "stdout-never-structured", "internal/logger/logger.go",
